@@ -1523,6 +1523,12 @@ def _encode_host(host: str, validate_host: bool) -> str:
         else:
             # These checks should not happen in the
             # LRU to keep the cache size small
+            if validate_host and (invalid := NOT_REG_NAME.search(zone.lower())):
+                # the zone id is kept verbatim, it must not carry a delimiter
+                raise ValueError(
+                    f"Host {host!r} cannot contain {invalid.group()!r} "
+                    "in its zone id"
+                ) from None
             host = ip.compressed
             if ip.version == 6:
                 return f"[{host}%{zone}]" if sep else f"[{host}]"
